@@ -37,25 +37,22 @@ VARIABLE c
 Init == c \in Cases
 Next == UNCHANGED c
 
-\* ---- design check: the laws hold for what the transcription predicts.  For URLs and parents the transcription
-\* follows the pinned code, which has two named deviations; there the INTENDED mapping must satisfy the laws and the
-\* coded one must fail exactly on the deviating class.
+\* ---- design check: the laws hold for what the transcription predicts.  For the parent location the transcription
+\* follows the code, which has one named deviation; there the INTENDED mapping must satisfy the law and the coded
+\* one must fail exactly on the deviating class.
 IntendedOut(x) ==
-    CASE x.kind = "url" -> LET b == BzrToGitIntended(x.u, x.sel) IN
-                           [SpecOut(x.kind, x) EXCEPT !.refU = b.ref, !.ref = IF b.ref = "-" THEN "-" ELSE QName(b.ref)]
-      [] x.kind = "parent" -> [parent |-> ParentIntended(x.u, x.sel)]
+    CASE x.kind = "parent" -> [parent |-> ParentIntended(x.u, x.sel)]
       [] OTHER -> SpecOut(x.kind, x)
 LawsHoldOnSpec == Failed(c.kind, c, IntendedOut(c)) = {}
 CodedDeviatesExactly ==
-    CASE c.kind = "url" -> (Failed(c.kind, c, SpecOut(c.kind, c)) = IF UrlRefDeviation(c) THEN {"urlsel"} ELSE {})
-      [] c.kind = "parent" -> (Failed(c.kind, c, SpecOut(c.kind, c)) = IF ParentDeviation(c) THEN {"parent"} ELSE {})
+    CASE c.kind = "parent" -> (Failed(c.kind, c, SpecOut(c.kind, c)) = IF ParentDeviation(c) THEN {"parent"} ELSE {})
       [] OTHER -> TRUE
 \* the quoting tables lose nothing (so "compare after unquoting" is meaningful)
 ASSUME \A a, b \in BranchNames \cup Refs : QName(a) = QName(b) => a = b
 ASSUME \A a, b \in Segs : QSeg(a) = QSeg(b) => a = b
 
 \* ---- anti-vacuity: witnesses TLC must violate, and existence statements evaluated at start-up
-WitnessUrlRef == ~(c.kind = "url" /\ c.u.form = "rsync" /\ ~c.u.abs /\ UrlRefDeviation(c))
+WitnessUrlRef == ~(c.kind = "url" /\ c.u.form = "rsync" /\ ~c.u.abs /\ UrlRefSelected(c))
 ASSUME \E x \in Cases : x.kind = "esc" /\ {"_", " ", FF} \subseteq Range(x.x)
 ASSUME \E x \in Cases : x.kind = "esc" /\ Unescape(x.x) = ERR
 ASSUME \E x \in Cases : x.kind = "fid" /\ {"<XFF>", "_", "/"} \subseteq Range(x.x)
